@@ -106,8 +106,8 @@ package p2p
 // the identity in that PeerInfo is the public key authenticated by the handshake of THIS connection - not the key the
 // dialer expected (a non-strict dial keeps going when the two differ).
 //@ func (*P2P).AddPeer
-//@   callsite (*p2p.PeerSet).Add requires[authenticated] info.Address != nil && connection.Address != nil && info.Address.PublicKey == connection.Address.PublicKey && newPeer.PeerInfo == info && newPeer.conn == connection
-//@   callsite AddForce requires[authenticated] info.Address != nil && connection.Address != nil && info.Address.PublicKey == connection.Address.PublicKey && newPeer.PeerInfo == info && newPeer.conn == connection
+//@   callsite (*p2p.PeerSet).Add requires[authenticated] info.Address != nil && resultof(NewConnection).Address != nil && info.Address.PublicKey == resultof(NewConnection).Address.PublicKey && callee.p.PeerInfo == info && callee.p.conn == resultof(NewConnection)
+//@   callsite AddForce requires[authenticated] info.Address != nil && resultof(NewConnection).Address != nil && info.Address.PublicKey == resultof(NewConnection).Address.PublicKey && callee.p.PeerInfo == info && callee.p.conn == resultof(NewConnection)
 
 // ---- C18: the receive loop hands EVERY data packet to its stream ---------------------------------------------------
 // A message arrives as consecutive packets; the stream reassembles them. The loop may stop (connection error, unknown
@@ -124,7 +124,7 @@ package p2p
 //@   trusted
 //@   modifies elems(uint8), ghost(mutexHeld)
 //@ func (*MultiConn).startReceiveService
-//@   loop 1 iterensures[nodrop] typeis(msg, *Packet) && dyn(msg, *Packet).StreamId != heartbeatTopic ==> (let pk = dyn(msg, *Packet) in let st = stream in (pk.Eof ? len(st.msgAssembler) == 0 : len(st.msgAssembler) == athead(len(st.msgAssembler)) + len(pk.Bytes)))
+//@   loop 1 iterensures[nodrop] typeis(resultof(waitForAndHandleWireBytes), *Packet) && dyn(resultof(waitForAndHandleWireBytes), *Packet).StreamId != heartbeatTopic ==> (let pk = dyn(resultof(waitForAndHandleWireBytes), *Packet) in let st = c.streams[pk.StreamId] in (pk.Eof ? len(st.msgAssembler) == 0 : len(st.msgAssembler) == athead(len(st.msgAssembler)) + len(pk.Bytes)))
 
 // ---- C18: every topic of a connection reassembles into a buffer of its own ------------------------------------------
 // Packets of different topics interleave on the wire; a half-assembled message of one topic stays in its stream's
